@@ -797,7 +797,7 @@ func cmdCheck(prop string, args []string) int {
 		newViol++
 		path := reportViolation(bins, prop, tier, c, fl, noMin)
 		if path == "" {
-			lines = append(lines, fmt.Sprintf("UNDECIDED property=%s class=%q: the failing run did not reproduce from its tape in a fresh process (seed %d); treated as could-not-decide", prop, c, fl.first.Res.Seed))
+			lines = append(lines, fmt.Sprintf("UNDECIDED property=%s class=%q: the failing run did not reproduce from its tape in a fresh process (seed %d: %s); treated as could-not-decide", prop, c, fl.first.Res.Seed, lastReplayWhy))
 			if exit == 0 {
 				exit = 2
 			}
@@ -1127,6 +1127,7 @@ func reportViolation(bins binaries, prop, tier, class string, fl *failList, noMi
 	}
 	b, _ := json.Marshal(rf)
 	os.WriteFile(raw, b, 0o644)
+	os.Remove(final) // a file of the same name left by an earlier invocation (same seed, other tree) must not be taken for this run's
 	if !noMin {
 		wo := runWorker(bin, Job{Mode: "minimise", File: raw, Out: final, Budget: envInt("VSIM_MIN_BUDGET", 400)}, 300*time.Second)
 		okMin := false
@@ -1157,8 +1158,28 @@ func reportViolation(bins binaries, prop, tier, class string, fl *failList, noMi
 		if json.Unmarshal(m, &r) == nil && r.Same && r.Res.Diverged == "" {
 			return final
 		}
+		why := "no violation"
+		if r.Res.Viol != nil {
+			why = "violation class " + r.Res.Viol.Class
+		}
+		if r.Res.Diverged != "" {
+			why += "; diverged: " + r.Res.Diverged
+		}
+		lastReplayWhy = why
+	}
+	if len(wo.lines["REPLAY"]) == 0 {
+		lastReplayWhy = fmt.Sprintf("replay worker gave no result (exit %v): %s", wo.exitErr, tailStr(wo.stderr, 400))
 	}
 	return ""
+}
+
+var lastReplayWhy string
+
+func tailStr(s string, n int) string {
+	if len(s) > n {
+		return s[len(s)-n:]
+	}
+	return s
 }
 
 func cmdReplay(mode, file string) int {
